@@ -41,7 +41,8 @@ def make_programs(ctx):
         digits = "long" if i % 4 == 3 else "short"
         useqt = (i % 12 == 5)
         layout = mpgen.LAYOUTS[i % 3] if i < 9 else None
-        spec = mpgen.random_spec(rng, i, digits=digits, useqt=useqt, layout=layout)
+        # under @UseQt `c ? 2.5 : x` mixes double and qt<NoUnit> operands, which C++ rejects: no conditional there
+        spec = mpgen.random_spec(rng, i, digits=digits, useqt=useqt, layout=layout, conditional=not useqt)
         progs.append({"spec": spec, "rng": rng, "text": mpgen.mfront_text(spec, rng)})
     for i in range(n["data"]):
         rng = vfcore.rng(ctx.seed, "c37", "d", i)
